@@ -148,7 +148,11 @@ def main() -> int:
     ev.extra["harvested_identifiers"] = len(cands)
     blt = sorted(b for b in dir(builtins) if b.isidentifier())
     cands |= set(blt if not quick else r.sample(blt, 40))
-    controls = {names.benign(r, "snake") + "_zc" for _ in range(10)}
+    # compatibility spellings (NFKC-equal to a reserved / template-own word, but a different string)
+    critical = sorted(set(keyword.kwlist) | {"self", "client", "url", "cls", "d", "params", "headers", "cookies", "body", "kwargs", "response", "type", "id", "list", "dict", "field_dict", "to_dict", "from_dict", "json", "datetime", "true", "none"})
+    compat = {names.fullwidth(c) for c in (critical if not quick else r.sample(critical, 14) + ["self", "client", "class", "url"])}
+    cands |= compat
+    controls = {names.benign(r, "snake") + "_zc" for _ in range(10)} | {names.fullwidth("widget"), names.fullwidth("neutral")}
     cands |= controls
     cands = sorted(cands)
     if quick:
@@ -157,7 +161,9 @@ def main() -> int:
     jobs, info = [], {}
     for ci, N in enumerate(cands):
         for sc, j in jobs_for(N):
-            if quick and sc[0] == "param" and not (sc == ("param", "query", True) or (ci + hash(sc) % 7) % 4 == 0):
+            if not N.isascii() and sc[0] == "param" and sc[1] != "query":
+                continue  # header / cookie / path-template names are ASCII tokens
+            if quick and sc[0] == "param" and not (sc == ("param", "query", True) or (ci + sum(map(ord, str(sc))) % 7) % 4 == 0):
                 continue
             info[j["id"]] = (N, sc)
             jobs.append(j)
@@ -183,7 +189,8 @@ def main() -> int:
         obs = norm_model_obs(res, N) if sc[0] == "model" else norm_op_obs(res, N, sc[1])
         if obs != control[sc]:
             first = next((i for i, (a, b) in enumerate(zip(obs, control[sc])) if a != b), None)
-            vd.violation(f"captured_name:{'model' if sc[0] == 'model' else 'param'}:{N}", f"name {N!r} as {scope}: observation differs from the neutral-name control: {str(obs[first])[:160] if first is not None else len(obs)} vs {str(control[sc][first])[:160] if first is not None else len(control[sc])}", w)
+            import unicodedata
+            vd.violation(f"captured_name:{'model' if sc[0] == 'model' else 'param'}:{unicodedata.normalize('NFKC', N)}", f"name {N!r} as {scope}: observation differs from the neutral-name control: {str(obs[first])[:160] if first is not None else len(obs)} vs {str(control[sc][first])[:160] if first is not None else len(control[sc])}", w)
         ev.seen(("C18", scope, N))
         if len(ev.samples) < 4 and N in ("d", "kwargs", "self", "response") and obs == control[sc]:
             ev.sample({"candidate": N, "scope": scope, "observations_equal_to_control": len(obs)})
